@@ -67,11 +67,8 @@ def opClient (args : List String) (impl : String) : Verdict :=
       let pairs := reqs.zip resps
       -- model: sequential processing, stop at the first panic
       let modelOuts : List Client.Outcome × Bool :=
-        pairs.foldl (fun (acc : List Client.Outcome × Bool) (x : Bytes × Bytes) =>
-          if acc.2 then acc else
-          match Client.handleResponse realScheme Sha512.hash ver pk? (nonceOfRequest p x.1) x.1 x.2 with
-          | .ok o => (acc.1 ++ [o], false)
-          | _ => (acc.1, true)) ([], false)
+        let r := Client.runAll realScheme Sha512.hash ver pk? (pairs.map fun x => (nonceOfRequest p x.1, x.1, x.2))
+        (r.1, !r.2)
       let fmtTime (o : Client.Outcome) : String :=
         let (s, n) := Client.printedTime ver o.midpoint
         let ns := toString n
